@@ -421,6 +421,12 @@ func spliceEdit(p *packages.Package, callee, caller *ast.FuncDecl, call *ast.Cal
 		if hasDefer || callee.Type.Results == nil || len(callee.Type.Results.List) != 1 || len(callee.Type.Results.List[0].Names) > 0 {
 			return inlineEdit{}, false
 		}
+		// not for an error result: `err = f(); if err != nil { return err }` is read by the error-flow rules
+		// as it stands (the helper's returns classified in the helper); routing the error through a
+		// temporary only hides its origins
+		if rt := info.TypeOf(callee.Type.Results.List[0].Type); rt == nil || isErrorType(rt) {
+			return inlineEdit{}, false
+		}
 	}
 	switch {
 	case isAssign:
